@@ -149,6 +149,20 @@ def coupling_work(chunk):
                 bad = 'rule length %d != documented %d' % (need, sm.rule_length(method, n, order))
             if nsteps < need:
                 bad = 'default %sStepGenerator yields %d steps, rule needs %d' % (gname, nsteps, need)
+        # the same coupling with the generator called directly for (method, n, order) as the statement words it
+        # (Derivative itself passes the rounded method order, checked above)
+        raw = None
+        for gname, gen in (('Min', MinStepGenerator()), ('Max', MaxStepGenerator())):
+            sg = gen.step_generator_function(0.5, method, n, order)
+            nsteps = len(list(sg()))
+            need = rule.rule(sg.step_ratio).size
+            if nsteps < need:
+                raw = ('default %sStepGenerator called with (%s, n=%d, order=%d) yields %d steps, the rule for the same '
+                       '(method, n, order) needs %d' % (gname, method, n, order, nsteps, need))
+        acc.case(case + ('raw',), nontrivial=True, cell='coupling-raw/%s' % method, outcome=raw)
+        if raw:
+            acc.violation('C10:coupling-raw-order:%s' % method, dict(kind='coupling', method=method, n=n, order=order),
+                          raw, rank=n * 10 + order)
         for label, kw in (('default', {}), ('bareMin', {'step': MinStepGenerator()})):
             try:
                 with warnings.catch_warnings():
@@ -171,7 +185,7 @@ def coupling_work(chunk):
 
 REUSE_CALLS = [(0.0, 'central', 1, 2), (1e4, 'central', 1, 2), (1.0, 'forward', 3, 4),
                (-3.7, 'complex', 2, 2), (1.0, 'complex', 1, 2), ((2.0, -50.0), 'backward', 2, 1),
-               (1.0, 'multicomplex', 1, 2)]
+               (1.0, 'multicomplex', 1, 2), ((3000.0, 0.5), 'backward', 2, 1), ((0.0, 1e4), 'central', 1, 2)]
 REUSE_GENS = [('Min', {}), ('Max', {}), ('Min', {'num_extrap': 4}), ('Max', {'num_steps': None}),
               ('Min', {'base_step': 0.25}), ('C', {}), ('C', {'path': 'spiral'})]
 
@@ -182,10 +196,18 @@ def reuse_work(chunk):
         gen = lib_generator(cls, opts)
         bad = None
         trace = []
+        # array points are handed over in ONE persistent ndarray that the caller updates in place between
+        # calls (an optimisation loop does exactly that): the sequence must depend on its current contents
+        buf = np.zeros(2)
         for idx in seq:
             xv, method, n, order = REUSE_CALLS[idx]
-            x = np.asarray(xv, dtype=float)
+            if isinstance(xv, tuple):
+                buf[:] = xv
+                x = buf
+            else:
+                x = np.asarray(xv, dtype=float)
             got = [np.array(s) for s in gen(x, method, n, order)]
+            x = np.array(x, copy=True)
             fresh = [np.array(s) for s in lib_generator(cls, opts)(x, method, n, order)]
             same = len(got) == len(fresh) and all(
                 np.array_equal(a, b) for a, b in zip(got, fresh))
